@@ -254,6 +254,9 @@ def export_plan(p: ClassPlan) -> dict:
                                                       "iteration_prefix": tg["iteration_prefix"], "size_used": tg["size_used"],
                                                       "tags": sorted(tg["arms"])},
                      "raises": p.r.get("raises"), "class": p.r.get("class"),
+                     "results": [{"conds": jsonable(r["conds"]),
+                                  "fields": {k: jsonable(term_of(v)) for k, v in r["value"].attrs.items()} if isinstance(r["value"], InstV) else None}
+                                 for r in (p.r.get("results") or [])],
                      "result_fields": sorted(p.r["result"].attrs) if isinstance(p.r.get("result"), InstV) else None,
                      "codec": jsonable(p.reader)}
     out["writer"] = {"flexible": p.w.get("flexible"), "raises": jsonable(p.w.get("raises")),
@@ -415,7 +418,25 @@ def analyse_primitives(P: Plans) -> dict:
                 ps = []
             out["writers"][name] = {"desc": None, "line": f.node.lineno, "kind": "nullary"}
         else:
-            out["writers"][name] = {"desc": None, "line": f.node.lineno, "kind": "helper",
+            # helper with extra parameters (write_tagged_field): explore it standalone with a caller-owned sink,
+            # an item writer and a typed value, so that its own use of the sink is in the effect log
+            args, ok = [StreamV("param")], True
+            for a in params[1:]:
+                t = I.ev_annotation(a.annotation, f.env, Run()) if a.annotation is not None else None
+                if "writer" in a.arg:
+                    args.append(wm.env.vars.get("write_int8"))
+                elif isinstance(t, ClassV):
+                    args.append(I.sym_of_type(("param", a.arg), t))
+                elif isinstance(t, OpaqueV) or t is None:
+                    args.append(I.sym_of_type(("param", a.arg), prim["i8"]))
+                else:
+                    args.append(I.sym_of_type(("param", a.arg), t))
+            try:
+                P.A.paths(f, args, direction="w")
+                kind = "helper-explored"
+            except (Limit, Raised) as e:
+                kind = f"helper-not-explored: {e}"
+            out["writers"][name] = {"desc": None, "line": f.node.lineno, "kind": kind,
                                     "params": [a.arg for a in params]}
     return out
 
